@@ -17,9 +17,9 @@ EXTENDS Tables
 
 Traces == ndJsonDeserialize(IOEnv.VERIF_TRACES)
 
-VARIABLES g, inp, opt, stack, sstack, vals, nodes, it, endIt, cur, line, col, mode, ph, status, msgs, red, ev,
+VARIABLES g, inp, opt, stack, sstack, vals, nodes, it, endIt, cur, line, col, mode, ph, status, msgs, red, mxd, ev,
           tix, pos, bad, fin
-vars == <<g, inp, opt, stack, sstack, vals, nodes, it, endIt, cur, line, col, mode, ph, status, msgs, red, ev, tix, pos, bad, fin>>
+vars == <<g, inp, opt, stack, sstack, vals, nodes, it, endIt, cur, line, col, mode, ph, status, msgs, red, mxd, ev, tix, pos, bad, fin>>
 
 D == INSTANCE Driver WITH RCell <- DumpCell, SCell <- SpecCell, LexAt <- LexDispatch, GR <- GRof
 
@@ -41,7 +41,7 @@ Step ==
   /\ bad = <<>> /\ status = "run" /\ ~fin
   /\ IF D!HaveTerm /\ ~D!CellsAgree
      THEN /\ bad' = <<"table", pos, D!Top(stack), D!T, D!Cell, D!SpecCellNow>>
-          /\ UNCHANGED <<g, inp, opt, stack, sstack, vals, nodes, it, endIt, cur, line, col, mode, ph, status, msgs, red, ev, tix, pos, fin>>
+          /\ UNCHANGED <<g, inp, opt, stack, sstack, vals, nodes, it, endIt, cur, line, col, mode, ph, status, msgs, red, mxd, ev, tix, pos, fin>>
      ELSE /\ D!DNext
           /\ IF Visible(ev')
              THEN IF pos <= Len(E) /\ Match(ev', E[pos]) THEN pos' = pos + 1 /\ bad' = bad
@@ -69,7 +69,7 @@ FinalProblems ==
 Final ==
   /\ bad = <<>> /\ status # "run" /\ ~fin
   /\ fin' = TRUE /\ bad' = FinalProblems
-  /\ UNCHANGED <<g, inp, opt, stack, sstack, vals, nodes, it, endIt, cur, line, col, mode, ph, status, msgs, red, ev, tix, pos>>
+  /\ UNCHANGED <<g, inp, opt, stack, sstack, vals, nodes, it, endIt, cur, line, col, mode, ph, status, msgs, red, mxd, ev, tix, pos>>
 
 Next == Step \/ Final
 Spec == Init /\ [][Next]_vars
